@@ -223,7 +223,12 @@ pub fn check_reply(g: &GenReq, call: Option<&Call>, out: &vkit::xport::Outcome, 
         // add_entry itself failed (no room in the reply buffer) and the filesystem propagated that
         // error: the answer must be a clean error reply
         if h.error == 0 {
-            return Err((format!("C03:{}:success-on-error", op), "the filesystem returned the add_entry error, the reply reports success".to_string()));
+            return Err((format!("C03:{}:success-on-error", op), "the filesystem returned an error (that of add_entry, or its own after some entries), the reply reports success".to_string()));
+        }
+        if let Res::Dir { final_err: Some(ErrV::Raw(e)), .. } = &call.res {
+            if *e > 0 {
+                return err_only(*e);
+            }
         }
         return want_len(body, 0, op);
     }
